@@ -759,12 +759,27 @@ impl<'a> Writer<'a> {
         class: Class,
         ttl: Ttl,
         rdata: &Rdata,
+        hint_pointer_vec: Option<&mut HintPointerVec>,
+    ) -> Result<()> {
+        self.add_rr_with_ttl_field(owner, rr_type, class, ttl.into(), rdata, hint_pointer_vec)
+    }
+
+    /// Like [`Writer::add_rr`], but takes the raw value of the 32-bit
+    /// TTL field. This exists for pseudo-RRs (OPT) that give the field
+    /// another meaning.
+    fn add_rr_with_ttl_field(
+        &mut self,
+        owner: HintedName,
+        rr_type: Type,
+        class: Class,
+        ttl_field: u32,
+        rdata: &Rdata,
         mut hint_pointer_vec: Option<&mut HintPointerVec>,
     ) -> Result<()> {
         self.most_recent_owner = self.write_hinted_name(owner)?;
         self.try_push_u16(rr_type.into())?;
         self.try_push_u16(class.into())?;
-        self.try_push_u32(ttl.into())?;
+        self.try_push_u32(ttl_field)?;
 
         // Save two octets for the RDLENGTH field. We must compute and
         // write this field at the end, since it's affected by
@@ -936,14 +951,18 @@ impl<'a> Writer<'a> {
         // there will be enough space.
 
         if let Some(ref edns) = self.edns {
+            // NOTE: the OPT TTL field is not a TTL: its upper octet
+            // carries the upper eight bits of the extended RCODE, so
+            // it must not go through Ttl (which treats values with the
+            // most significant bit set as zero).
             let class = Class::from(edns.udp_payload_size);
-            let ttl = Ttl::from((edns.extended_rcode_upper_bits as u32) << 24);
+            let ttl_field = (edns.extended_rcode_upper_bits as u32) << 24;
             self.available += OPT_RECORD_SIZE;
-            self.add_rr(
+            self.add_rr_with_ttl_field(
                 HintedName::new(Hint::None, Name::root()),
                 Type::OPT,
                 class,
-                ttl,
+                ttl_field,
                 Rdata::empty(),
                 None,
             )
